@@ -189,7 +189,8 @@ CLAIMS = {
              "with the original): apply-type methods write neither the caller's data nor the estimator -- _predict_fixed_cutoff, "
              "NaiveForecaster._predict_last_window, PolynomialTrendForecaster._predict, _predict of pipeline / ensemble / multiplexer, "
              "Deseasonalizer and OptionalPassthrough transform / inverse_transform, TabularToSeriesAdaptor, HampelFilter.transform, "
-             "Imputer.transform (9 rules x missing-value option), forest predict_proba / predict, column ensemble, BOSS ensemble, "
+             "Imputer.transform (9 rules x missing-value option), _slope on a window that is a view of the caller's array, forest "
+             "predict_proba / predict, column ensemble, BOSS ensembles, "
              "BaseClassifier.predict / score, sliding-window and interval segmenters (data only: row transformers store per-instance "
              "clones on self). Their results are functions of the arguments and the fitted state only (no n_jobs, no call history in any "
              "postcondition), which gives repeatability and n_jobs-independence under the joblib ordering assumption; "
